@@ -10,6 +10,7 @@ LPS = {
     "sm":   ["Softmax", {"tau": 1}],
     "pop":  ["Popularity", {}],
     "ts":   ["ThompsonSampling", {}],
+    "tsb":  ["ThompsonSampling", {"binarizer": "bin_ge1"}],
     "rnd":  ["Random", {}],
     "lg":   ["LinGreedy", {"epsilon": 0, "l2_lambda": 1}],
     "lucb": ["LinUCB", {"alpha": 1, "l2_lambda": 1}],
@@ -18,8 +19,8 @@ LPS = {
 }
 DETERMINISTIC_LPS = ("eg0", "ucb", "lg", "lucb")
 LINEAR_LPS = ("lg", "lucb", "lts", "lts1")
-CONTEXT_FREE_LPS = ("eg0", "eg5", "ucb", "sm", "pop", "ts", "rnd")
-TREE_LPS = ("eg0", "eg5", "ucb", "ts")
+CONTEXT_FREE_LPS = ("eg0", "eg5", "ucb", "sm", "pop", "ts", "tsb", "rnd")
+TREE_LPS = ("eg0", "eg5", "ucb", "ts", "tsb")
 
 # ----------------------------------------------------------------- neighbourhood policies
 NPS = {
@@ -101,3 +102,11 @@ def relabel(x, mapping):
     if isinstance(x, list):
         return [relabel(v, mapping) for v in x]
     return mapping.get(x, x) if not isinstance(x, (dict,)) else x
+
+
+_WEIGHT = {"clu": 0, "mclu": 0, "tree": 1, "lsh": 2, "knn": 3, "rad": 3, "none": 4}
+
+
+def heavy_first(shards):
+    """Stable sort putting the costly neighbourhood policies first (better load balance)."""
+    return sorted(shards, key=lambda s: _WEIGHT.get(s.get("nn"), 5))
